@@ -6,7 +6,8 @@ args = sys.argv[1:]
 tier = "quick"
 if "--tier" in args:
     i = args.index("--tier"); tier = args[i + 1]; del args[i:i + 2]
-patch, props = args[0], args[1:]
+import os
+patch, props = os.path.abspath(args[0]), args[1:]
 st = subprocess.run(["git", "-C", "/repo", "status", "--porcelain"], capture_output=True, text=True).stdout.strip()
 if st:
     print("/repo not clean:\n" + st); sys.exit(3)
